@@ -299,9 +299,10 @@ Qed.
 
 Lemma facts_ok_inv F : facts_ok F = true ->
   sniff_chain_ok F = true /\ ext_chain_ok F = true /\ cont_chain_ok F = true /\ containers_vs_codecs_ok F = true
-  /\ adapters_ok F = true /\ f_writer_passthrough F = true /\ f_path_fallback_sniffs F = true.
+  /\ adapters_ok F = true /\ f_writer_passthrough F = true /\ f_path_fallback_sniffs F = true
+  /\ f_stdin_fallback_sniffs F = true.
 Proof.
-  unfold facts_ok. intros H. do 6 (apply andb_prop in H; destruct H as [H ?H]). repeat split; assumption.
+  unfold facts_ok. intros H. do 7 (apply andb_prop in H; destruct H as [H ?H]). repeat split; assumption.
 Qed.
 
 Lemma sniff_chain_ok_inv F : sniff_chain_ok F = true ->
@@ -525,7 +526,16 @@ Lemma read_path_neutral_ok c k p path : avail e c = true -> is_container F e k p
   read_path F e peek decompress R parse k path (compress c p) = Read k (parse k p).
 Proof.
   intros Ha Hk Hx. unfold read_path, open_path_read. rewrite Hx.
-  destruct (facts_ok_inv F HF) as (_ & _ & _ & _ & _ & _ & ->).
+  destruct (facts_ok_inv F HF) as (_ & _ & _ & _ & _ & _ & -> & _).
+  rewrite (sniff_compressed c k p Ha Hk), unwrap_compress. reflexivity.
+Qed.
+
+(* standard input named through an explicit adapter scheme ("stream://-", "avro://") *)
+Lemma read_stdin_as_ok c k p : avail e c = true -> is_container F e k p ->
+  read_stdin_as F e peek decompress R parse k (compress c p) = Read k (parse k p).
+Proof.
+  intros Ha Hk. unfold read_stdin_as, open_stdin_read.
+  destruct (facts_ok_inv F HF) as (_ & _ & _ & _ & _ & _ & _ & ->).
   rewrite (sniff_compressed c k p Ha Hk), unwrap_compress. reflexivity.
 Qed.
 
@@ -555,7 +565,7 @@ Lemma ext_sniff_agree c k p stem x path : avail e c = true -> c <> Plain -> In x
   open_path_read F e path (peek (compress c p)) = OCodec c.
 Proof.
   intros Ha Hc Hx Hk Hn. unfold open_path_read. rewrite (ext_correct F HF e c x stem Hx), Ha, Hn.
-  destruct (facts_ok_inv F HF) as (_ & _ & _ & _ & _ & _ & ->).
+  destruct (facts_ok_inv F HF) as (_ & _ & _ & _ & _ & _ & -> & _).
   rewrite (sniff_compressed c k p Ha Hk). split; reflexivity.
 Qed.
 
@@ -726,13 +736,15 @@ Lemma access_paths_agree c k p : avail e c = true -> is_container F e k p ->
   (forall path, ext_codec F e path = ExtNone ->
      read_path F e peek decompress R parse k path (compress c p) = Read k (parse k p)) /\
   read_fileobj_as F e peek decompress R parse k (compress c p) = Read k (parse k p) /\
-  read_fileobj F e peek decompress R parse (compress c p) = Read k (parse k p).
+  read_fileobj F e peek decompress R parse (compress c p) = Read k (parse k p) /\
+  read_stdin_as F e peek decompress R parse k (compress c p) = Read k (parse k p).
 Proof.
   destruct HE as (H1 & H2 & H3 & H4). intros Ha Hk. repeat split.
   - intros stem x Hx. apply (read_path_ext_ok F HF e peek compress decompress R parse H3 H4); assumption.
   - intros path Hp. apply (read_path_neutral_ok F HF e peek compress decompress R parse H1 H2 H3 H4); assumption.
   - apply (read_fileobj_as_ok F HF e peek compress decompress R parse H1 H2 H3 H4); assumption.
   - apply (read_fileobj_ok F HF e peek compress decompress R parse H1 H2 H3 H4); assumption.
+  - apply (read_stdin_as_ok F HF e peek compress decompress R parse H1 H2 H3 H4); assumption.
 Qed.
 
 Lemma ext_sniff_agree_pk c k p stem x path :
